@@ -262,3 +262,139 @@ def state_per_instance(ctx: Ctx):
                          construct=f'{c.name}.{name}', path=c.module.path)
     yield ctx.ob('SUPPORT.STATE-PER-INSTANCE', True, None, None, f'classes of lab.py / runners scanned, {n} class-level mutable containers',
                  construct='scan', path='labtech/lab.py')
+
+
+def _tail_name(e: ast.AST):
+    if isinstance(e, ast.Name):
+        return e.id
+    if isinstance(e, ast.Attribute):
+        return e.attr.lstrip('_')
+    return None
+
+
+@rule('SUPPORT.ARG-NAME-AGREE', ['C01', 'C03', 'C04', 'C05', 'C06', 'C08', 'C10', 'C16', 'C15', 'C19'])
+def arg_name_agree(ctx: Ctx):
+    """Sweep over every call to a package function / constructor: an argument that is a plain variable (or
+    attribute) named like one of the callee's parameters must be bound to that parameter - passing `storage` as
+    `context`, `max_workers` as `max_parallel`, `bust_cache` as `disable_progress` is a mix-up of same-typed
+    pass-through configuration."""
+    n = 0
+    for fn in ctx.P.all_functions():
+        for call in calls_in(fn.node):
+            cs = [q for q in ctx.P.resolve_call(call, fn, by_name=False) if q in ctx.P.funcs or q in ctx.P.classes]
+            if len(cs) < 1:
+                continue
+            callees = []
+            for q in cs:
+                if q in ctx.P.funcs:
+                    callees.append(ctx.P.funcs[q])
+                else:
+                    c = ctx.P.classes[q]
+                    init = ctx.P.find_method(c, '__init__')
+                    if init is not None:
+                        callees.append(init)
+                    elif c.annotations:
+                        callees.append(c)     # dataclass-style constructor: fields are the parameters
+            for cal in callees:
+                if hasattr(cal, 'params'):
+                    pos = [a.arg for a in cal.node.args.posonlyargs + cal.node.args.args]
+                    attached = any(cal.qualname == a.qualname for a in ctx.P.attachments.values())
+                    if ((cal.cls is not None and not cal.is_static) or (attached and isinstance(call.func, ast.Attribute))) and pos:
+                        pos = pos[1:]
+                    names = pos + [a.arg for a in cal.node.args.kwonlyargs]
+                else:
+                    pos = list(cal.annotations)
+                    names = list(pos)
+                bound = {}
+                for i, a in enumerate(call.args):
+                    if isinstance(a, ast.Starred) or i >= len(pos):
+                        break
+                    bound[pos[i]] = a
+                for kw in call.keywords:
+                    if kw.arg is not None:
+                        bound[kw.arg] = kw.value
+                for pname, a in bound.items():
+                    tn = _tail_name(a)
+                    if tn is None or tn == pname or tn not in names:
+                        continue
+                    # the same-named parameter exists but receives something else (or nothing)
+                    other = bound.get(tn)
+                    if other is not None and _tail_name(other) == tn:
+                        continue
+                    n += 1
+                    yield ctx.ob('SUPPORT.ARG-NAME-AGREE', False, fn, call, f'argument `{src(a)}` bound to parameter `{pname}`',
+                                 f'`{src(call)[:70]}` passes `{src(a)}` as `{pname}` although the callee has a parameter `{tn}`: '
+                                 'two pass-through arguments are mixed up')
+    yield ctx.ob('SUPPORT.ARG-NAME-AGREE', True, None, None, f'all package call sites scanned, {n} mix-ups', construct='scan', path='labtech/')
+
+
+@rule('SUPPORT.CONFIG-FLOW', ['C03', 'C04', 'C05', 'C06', 'C08', 'C10', 'C16', 'C01', 'C15'])
+def config_flow(ctx: Ctx):
+    """Configuration reaches its consumer unchanged: constructor parameters are stored under their own name and
+    read back from there (Lab: continue_on_failure / max_workers / context / storage; TaskCoordinator: lab /
+    bust_cache; runners: context / storage; task decorator -> TaskInfo)."""
+    def stores(fnq: str, wanted: dict[str, str]):
+        f = ctx.P.func(fnq)
+        sn = f.self_name
+        g = ctx.cfg(f)
+        rd = ctx.rd(f)
+        for fld, param in wanted.items():
+            ws = [n for n in walk_local(f.node) if isinstance(n, ast.Assign) and isinstance(n.targets[0], ast.Attribute)
+                  and isinstance(n.targets[0].value, ast.Name) and n.targets[0].value.id == sn and n.targets[0].attr == fld]
+            ok = False
+            if len(ws) == 1:
+                v = ws[0].value
+                # the parameter itself, possibly after documented defaulting / conversion of the same name
+                names = {x.id for x in ast.walk(v) if isinstance(x, ast.Name)}
+                ok = param in names and not (names - {param, 'is_ipython'})
+            yield ctx.ob('SUPPORT.CONFIG-FLOW', ok, f, ws[0] if ws else f.node, f'{f.short}: self.{fld} <- {param}',
+                         '' if ok else f'{f.short} does not store its `{param}` argument in self.{fld}')
+    yield from stores('lab.Lab.__init__', {'continue_on_failure': 'continue_on_failure', 'max_workers': 'max_workers',
+                                           'context': 'context', '_storage': 'storage', 'runner_backend': 'runner_backend'})
+    yield from stores('lab.TaskCoordinator.__init__', {'lab': 'lab', 'bust_cache': 'bust_cache'})
+    yield from stores('runners.serial.SerialRunner.__init__', {'context': 'context', 'storage': 'storage'})
+    yield from stores('runners.process.SpawnProcessRunner.__init__', {'context': 'context', 'storage': 'storage'})
+    # Lab.run_tasks -> TaskCoordinator(self, bust_cache=bust_cache, ...)
+    rt = ctx.P.func('lab.Lab.run_tasks')
+    for call in calls_in(rt.node):
+        if f'{PKG}.lab.TaskCoordinator' in ctx.P.resolve_call(call, rt):
+            kws = {k.arg: k.value for k in call.keywords}
+            ok = isinstance(kws.get('bust_cache'), ast.Name) and kws['bust_cache'].id == 'bust_cache' and call.args \
+                and isinstance(call.args[0], ast.Name) and call.args[0].id == rt.self_name
+            yield ctx.ob('SUPPORT.CONFIG-FLOW', ok, rt, call, 'run_tasks -> TaskCoordinator(self, bust_cache=bust_cache)',
+                         '' if ok else 'run_tasks does not hand its bust_cache argument (and itself) to the coordinator')
+    # coordinator -> build_runner(context=self.lab.context, max_workers=self.lab.max_workers, storage=self.lab._storage)
+    run = ctx.P.func('lab.TaskCoordinator.run')
+    for call in calls_in(run.node):
+        if isinstance(call.func, ast.Attribute) and call.func.attr == 'build_runner':
+            kws = {k.arg: src(k.value) for k in call.keywords}
+            sn = run.self_name
+            ok = kws == {'context': f'{sn}.lab.context', 'max_workers': f'{sn}.lab.max_workers', 'storage': f'{sn}.lab._storage'} \
+                and same_expr(call.func.value, ast.parse(f'{sn}.lab.runner_backend', mode='eval').body)
+            yield ctx.ob('SUPPORT.CONFIG-FLOW', ok, run, call, 'runner built from the Lab\'s backend, context, max_workers and storage',
+                         '' if ok else f'build_runner receives {kws}: not the Lab\'s own context / max_workers / storage')
+    # process runner -> executor(max_workers=max_workers)
+    pri = ctx.P.func('runners.process.ProcessRunner.__init__')
+    for call in calls_in(pri.node):
+        if any(q.endswith('ProcessExecutor') for q in ctx.P.resolve_call(call, pri)):
+            mw = kwarg(call, 'max_workers', 1)
+            ok = isinstance(mw, ast.Name) and mw.id == 'max_workers'
+            yield ctx.ob('SUPPORT.CONFIG-FLOW', ok, pri, call, 'executor built with the runner\'s max_workers',
+                         '' if ok else 'the executor does not receive the runner\'s max_workers')
+    # handle_failure reads self.lab.continue_on_failure (checked by C10.HANDLE-FAILURE-TRUTH); decorator -> TaskInfo
+    deco = ctx.P.func('tasks.task.<locals>.decorator')
+    for call in calls_in(deco.node):
+        if any(q.endswith('types.TaskInfo') for q in ctx.P.resolve_call(call, deco)):
+            kws = {k.arg: k.value for k in call.keywords}
+            ok = isinstance(kws.get('max_parallel'), ast.Name) and kws['max_parallel'].id == 'max_parallel' \
+                and isinstance(kws.get('mlflow_run'), ast.Name) and kws['mlflow_run'].id == 'mlflow_run' \
+                and isinstance(kws.get('orig_post_init'), ast.Name) and kws['orig_post_init'].id == 'post_init' \
+                and any(isinstance(x, ast.Name) and x.id == 'cache' for x in ast.walk(kws.get('cache', ast.Constant(value=None))))
+            yield ctx.ob('SUPPORT.CONFIG-FLOW', ok, deco, call, 'TaskInfo(cache, orig_post_init=post_init, max_parallel, mlflow_run) from the decorator arguments',
+                         '' if ok else 'the task decorator does not record its own arguments in TaskInfo')
+    # post_init is read before dataclass() replaces attributes, from the user's class
+    okp = any(isinstance(n, ast.Assign) and isinstance(n.targets[0], ast.Name) and n.targets[0].id == 'post_init'
+              and isinstance(n.value, ast.Call) and dotted(n.value.func) == 'getattr' and len(n.value.args) == 3
+              and isinstance(n.value.args[1], ast.Constant) and n.value.args[1].value == 'post_init' for n in walk_local(deco.node))
+    yield ctx.ob('SUPPORT.CONFIG-FLOW', okp, deco, deco.node, "post_init = getattr(cls, 'post_init', None)", '' if okp else
+                 'the decorator does not pick up the task type\'s post_init method', construct='post-init-lookup')
